@@ -144,5 +144,14 @@ TEXT = {
                 "CG-based pinv is judged to its requested tolerance times cond^2",
         "technique": "runtime monitoring: reference SVD / least-squares oracle over generated shapes, kinds and algorithms",
     },
+    "C17": {
+        "level": "Held on the executions observed: every drawing routine run under an RNG tap (numpy.random API events + keyed "
+                 "draws), a bitwise snapshot of the global state around each call, random user/cola histories compared with a "
+                 "control stream, the Hutchinson estimate recomputed from the recorded probes, and keyed statistical band tests.",
+        "note": _NOTE + "; statistical statements (unbiasedness) are decided by the deterministic estimator-formula monitor plus 7-sigma "
+                "bands on keyed samples: a bias below the band of the budgeted sample is not seen; bit-identity is within one "
+                "process",
+        "technique": "runtime monitoring: RNG-API event tap checked online against a bracket trace specification, state-snapshot conservation oracle, probe-replay oracle for the estimator",
+    },
 }
 NOT_APPLICABLE = {}
